@@ -57,6 +57,10 @@ def is_concrete(v):
     return False
 
 
+def _alts(v):
+    return list(v[1]) if v[0] == "oneof" else [v]
+
+
 def join(a, b):
     if a is None:
         return b
@@ -66,6 +70,24 @@ def join(a, b):
         return a
     if a[0] == "agg" and b[0] == "agg" and a[1] == b[1] and a[2] == b[2] and len(a[3]) == len(b[3]):
         return ("agg", a[1], a[2], tuple(join(x, y) for x, y in zip(a[3], b[3])))
+    # values of the same enum type in different variants: keep the (small) set of alternatives
+    if a[0] in ("agg", "oneof") and b[0] in ("agg", "oneof"):
+        alts = _alts(a) + _alts(b)
+        ctor = alts[0][1]
+        if all(x[0] == "agg" and x[1] == ctor for x in alts) and ctor not in ("tuple", "array") and not ctor.startswith("closure:"):
+            byvar = {}
+            for x in alts:
+                if x[2] in byvar:
+                    y = byvar[x[2]]
+                    byvar[x[2]] = ("agg", ctor, x[2], tuple(join(p, q) for p, q in zip(y[3], x[3]))) if len(y[3]) == len(x[3]) else None
+                    if byvar[x[2]] is None:
+                        return TOP
+                else:
+                    byvar[x[2]] = x
+            if len(byvar) == 1:
+                return next(iter(byvar.values()))
+            if len(byvar) <= 6:
+                return ("oneof", tuple(byvar[k] for k in sorted(byvar)))
     return TOP
 
 
@@ -135,12 +157,14 @@ class Result:
 
 
 class Interp:
-    def __init__(self, F, body, oracle=None, max_iter=20000):
+    def __init__(self, F, body, oracle=None, max_iter=20000, inline=(), depth=0):
         self.F = F
         self.body = body
         self.oracle = oracle or Oracle()
         self.max_iter = max_iter
         self.addr_taken = set()
+        self.inline = tuple(inline)   # suffixes of crate functions evaluated by propagating constants through their bodies
+        self.depth = depth
 
     # ------------------------------------------------------------------ values of operands/places
     def const_val(self, c):
@@ -160,14 +184,42 @@ class Interp:
         pm = _PROM.search(v)
         if pm:
             return self._promoted(int(pm.group(1)))
+        if c.get("item"):
+            iv = self._const_item(norm(c["item"]))
+            if iv is not None:
+                return iv
         # unit enum variants as constants: `const path::Variant`
         adt = self._adt_of_type(ty)
-        if adt is not None and v.startswith("const "):
-            name = norm(v[6:]).split("::")[-1]
+        if adt is not None:
+            name = norm(v[6:] if v.startswith("const ") else v).split("::")[-1]
             for vi, var in enumerate(adt.variants):
                 if var["name"] == name and not var["fields"]:
                     return Agg(adt.path, vi, ())
         return TOP
+
+    def _const_item(self, path):
+        """value of a `const` / `static` item of the crate, by propagating constants through its own body"""
+        cache = self.F.__dict__.setdefault("_const_items", {})
+        if path in cache:
+            return cache[path]
+        cache[path] = None
+        cb = self.F.bodies.get(path)
+        if cb is None or not cb.kind.startswith(("Const", "AssocConst", "Static")):
+            return None
+        try:
+            it = Interp(self.F, cb)
+            res = it.run()
+            v = res.return_value()
+            if v is not None and v[0] == "ref" and not isinstance(v[1], tuple):
+                for b in cb.return_blocks():
+                    st = res.out_state(b)
+                    v = ("ref", ("constv", it.project(st, st.get(v[1], TOP), v[2])), ())
+                    break
+            if v is not None and v != TOP:
+                cache[path] = v
+        except Exception:
+            pass
+        return cache[path]
 
     def _promoted(self, idx):
         root = self.body.promoted_of or self.body
@@ -232,7 +284,13 @@ class Interp:
                     return TOP
             elif isinstance(e, dict) and "dc" in e:
                 # downcast: the value must be that variant on an executable path
-                if val[0] == "agg" and val[2] != e["vi"]:
+                if val[0] == "oneof":
+                    keep = [x for x in val[1] if x[2] == e["vi"]]
+                    if len(keep) == 1:
+                        val = keep[0]
+                    else:
+                        return TOP
+                elif val[0] == "agg" and val[2] != e["vi"]:
                     return TOP
             elif isinstance(e, dict) and "ci" in e:
                 if val[0] == "bytes":
@@ -399,6 +457,8 @@ class Interp:
         self._st = st    # current abstract state, for oracles that need to look at other locals
         argvals = [self.operand(st, bb, a) for a in term["args"]]
         r = self.oracle.call(self, bb, term, argvals)
+        if r is None and self.inline and self.depth < 4:
+            r = self._inline(st, term, argvals)
         if r is None:
             r = model_call(self, st, term, argvals)
         if r is None:
@@ -408,6 +468,27 @@ class Interp:
                 if a[0] == "ref" and ty.startswith("&mut") and not isinstance(a[1], tuple):
                     self.write_cell_proj(st, a[1], a[2], TOP)
         return r, argvals
+
+    def _inline(self, st, term, argvals):
+        c = callee_of(term)
+        if not c or not any(c == s or c.endswith("::" + s) for s in self.inline):
+            return None
+        cb = self.F.bodies.get(c)
+        if cb is None:
+            return None
+        # pass argument values; references to caller locals are replaced by references to the values they point to
+        args = {}
+        for i, v in enumerate(argvals):
+            if v[0] == "ref" and not isinstance(v[1], tuple):
+                tgt = deref_val(self, st, v, depth=1)
+                v = ("ref", ("constv", tgt), ())
+            args[i + 1] = v
+        try:
+            sub = Interp(self.F, cb, Oracle(args=args, call=self.oracle._call), inline=self.inline, depth=self.depth + 1)
+            rv = sub.run().return_value()
+            return rv
+        except Exception:
+            return None
 
     # ------------------------------------------------------------------ fixpoint
     def run(self):
@@ -615,6 +696,12 @@ STD_ADTS["std::cmp::Ordering"].variants[0]["discr"] = "-1"
 STD_ADTS["std::cmp::Ordering"].variants[1]["discr"] = "0"
 STD_ADTS["std::cmp::Ordering"].variants[2]["discr"] = "1"
 
+_INT_RANGES = {
+    "i8": (-(1 << 7), (1 << 7) - 1), "i16": (-(1 << 15), (1 << 15) - 1), "i32": (-(1 << 31), (1 << 31) - 1), "i64": (-(1 << 63), (1 << 63) - 1),
+    "i128": (-(1 << 127), (1 << 127) - 1), "isize": (-(1 << 63), (1 << 63) - 1),
+    "u8": (0, (1 << 8) - 1), "u16": (0, (1 << 16) - 1), "u32": (0, (1 << 32) - 1), "u64": (0, (1 << 64) - 1), "u128": (0, (1 << 128) - 1), "usize": (0, (1 << 64) - 1),
+}
+
 OPTION = "std::option::Option"
 RESULT = "std::result::Result"
 CFLOW = "std::ops::ControlFlow"
@@ -687,7 +774,20 @@ def model_call(interp, st, term, argvals):
         if a and a[0] != TOP and argvals[0][0] == "ref":
             return a[0]
         return None
-    if decl in ("std::ops::Deref::deref", "std::convert::AsRef::as_ref", "std::borrow::Borrow::borrow"):
+    if decl in ("std::ops::Deref::deref", "std::convert::AsRef::as_ref", "std::borrow::Borrow::borrow") or res in ("std::vec::Vec::as_slice",):
+        # Vec<u8> / String modelled as their bytes: dereferencing yields a reference to the same bytes
+        if argvals and argvals[0][0] == "ref" and a and a[0][0] == "bytes":
+            return ("ref", ("const", a[0][1]), ())
+        return None
+    if res == "std::vec::Vec::clear":
+        if argvals and argvals[0][0] == "ref" and a and a[0][0] == "bytes" and not isinstance(argvals[0][1], tuple):
+            interp.write_cell_proj(st, argvals[0][1], argvals[0][2], Bytes(b""))
+            return UNIT
+        return None
+    if res == "std::vec::Vec::extend_from_slice":
+        if len(a) == 2 and argvals[0][0] == "ref" and a[0][0] == "bytes" and a[1][0] == "bytes" and not isinstance(argvals[0][1], tuple):
+            interp.write_cell_proj(st, argvals[0][1], argvals[0][2], Bytes(a[0][1] + a[1][1]))
+            return UNIT
         return None
     if decl in ("std::convert::Into::into", "std::convert::From::from"):
         if a and is_int(a[0]):
@@ -737,17 +837,25 @@ def model_call(interp, st, term, argvals):
         if argvals and argvals[0][0] == "ref":
             return argvals[0]
         return None
-    if res in ("btoi::btoi", "btoi::btoi_radix", "atoi::atoi"):
+    if res in ("btoi::btoi", "btoi::btou", "atoi::atoi"):
         v = a[0] if a else TOP
-        if v[0] == "bytes":
+        ok_ = (lambda x: Ok(x)) if res.startswith("btoi") else (lambda x: Some(x))
+        bad = Err(TOP) if res.startswith("btoi") else NONE
+        tys = term.get("targs") or []
+        ity = tys[0] if tys else "i64"
+        rng = _INT_RANGES.get(ity)
+        if v[0] == "bytes" and rng is not None:
             try:
-                s = v[1].decode()
-                if s and (s[0] in "+-" and s[1:].isdigit() or s.isdigit()):
-                    n = int(s)
-                    if -(1 << 63) <= n < (1 << 63):
-                        return Ok(Int(n)) if res.startswith("btoi") else Some(Int(n))
-                return Err(TOP) if res.startswith("btoi") else NONE
+                sx = v[1].decode()
             except Exception:
-                return Err(TOP) if res.startswith("btoi") else NONE
+                return bad
+            signed_ok = res != "btoi::btou"
+            body_ = sx[1:] if (sx[:1] in "+-" and signed_ok) else sx
+            if not body_ or not body_.isdigit() or not body_.isascii():
+                return bad
+            n = int(sx)
+            if rng[0] <= n <= rng[1]:
+                return ok_(Int(n))
+            return bad
         return None
     return None
